@@ -81,11 +81,15 @@ def job(args):
     configs += [("ode_and_sensitivityIV", False, True)]
     for (fn, by_state, with_iv) in configs:
         varz, rhs, jac = aug_reference(R, with_iv, by_state)
-        for (x, t, th0) in pts:
+        # the first point is visited three times with different parameter values (same state, time and sensitivities:
+        # anything remembered per point across a parameter change would show), then the other points
+        pts_ext = [pts[0], (pts[0][0], pts[0][1], pts[1][2]), (pts[0][0], pts[0][1], pts[2][2]), pts[1], pts[2]]
+        sens_fixed = np.round(rnd.uniform(-1.5, 1.5, size=len(varz) - ns), 3)
+        for kpt, (x, t, th0) in enumerate(pts_ext):
             th = th0[:npar]
-            sens = np.round(rnd.uniform(-1.5, 1.5, size=len(varz) - ns), 3)
+            sens = sens_fixed if kpt < 3 else np.round(rnd.uniform(-1.5, 1.5, size=len(varz) - ns), 3)
             sp_vec = np.array(list(x) + list(sens))
-            if (x, t, th0) == pts[1]:
+            if kpt == 3:
                 # a whole-number point given with integer dtype (sensitivities 0/1 as at an initial condition)
                 x = [int(round(v)) + 1 for v in x]
                 sens = (np.arange(len(varz) - ns) % 2).astype(int)
@@ -93,12 +97,21 @@ def job(args):
             try:
                 if npar:
                     m.parameters = list(th)
+                # one array is handed to the right-hand side, to the Jacobian and to the right-hand side again, the way an
+                # implicit integrator hands over its working vector; it must come back untouched
+                arr = sp_vec.copy()
                 if fn == "ode_and_sensitivity":
-                    got = np.asarray(m.ode_and_sensitivity(sp_vec.copy(), t, by_state), float)
-                    gotJ = np.asarray(m.ode_and_sensitivity_jacobian(sp_vec.copy(), t, by_state), float)
+                    got = np.asarray(m.ode_and_sensitivity(arr, t, by_state), float)
+                    gotJ = np.asarray(m.ode_and_sensitivity_jacobian(arr, t, by_state), float)
+                    got_again = np.asarray(m.ode_and_sensitivity(arr, t, by_state), float)
                 else:
-                    got = np.asarray(m.ode_and_sensitivityIV(sp_vec.copy(), t), float)
-                    gotJ = np.asarray(m.ode_and_sensitivityIV_jacobian(sp_vec.copy(), t), float)
+                    got = np.asarray(m.ode_and_sensitivityIV(arr, t), float)
+                    gotJ = np.asarray(m.ode_and_sensitivityIV_jacobian(arr, t), float)
+                    got_again = np.asarray(m.ode_and_sensitivityIV(arr, t), float)
+                if not np.array_equal(arr, sp_vec) or not np.array_equal(got, got_again):
+                    out["viol"].append({"what": "caller-vector-modified", "which": fn, "by_state": by_state,
+                                        "detail": {"shape": [ns, npar], "point": [x, t, th], "before": sp_vec.tolist(), "after": arr.tolist()}})
+                    break
             except Exception as e:
                 out["viol"].append({"what": "raised", "which": fn, "by_state": by_state,
                                     "detail": {"shape": [ns, npar], "error": "%s: %s" % (type(e).__name__, e), "point": [x, t, th]}})
@@ -147,6 +160,23 @@ def job(args):
             except Exception as e:
                 out["viol"].append({"what": "integration-raised", "which": "ode_and_sensitivityIV", "by_state": False,
                                     "detail": {"shape": [ns, npar], "method": meth, "error": "%s: %s" % (type(e).__name__, e)}})
+        # an implicit integrator that hands its own working vector to the by-state system and its Jacobian
+        if npar and not out["viol"]:
+            try:
+                varz_s, rhs_s, _ = aug_reference(R, False, True)
+                ff_s = sp.lambdify(varz_s + [R.t] + list(R.ps), list(rhs_s), modules="math")
+                init_s = np.concatenate([x0, np.zeros(ns * npar)])
+                want_s = solve_ivp(lambda t, y: ff_s(*(list(y) + [t] + list(th))), (0.0, 1.5 + 1e-12), init_s, method="DOP853", rtol=1e-12, atol=1e-14, t_eval=times).y.T
+                got_s = solve_ivp(lambda t, y: m.ode_and_sensitivity(y, t, True), (0.0, 1.5 + 1e-12), init_s.copy(), method="Radau", rtol=1e-9, atol=1e-11,
+                                  t_eval=times, jac=lambda t, y: m.ode_and_sensitivity_jacobian(y, t, True)).y.T
+                out["checks"] += 1
+                if got_s.shape != want_s.shape or not np.allclose(got_s, want_s, rtol=1e-5, atol=1e-6):
+                    out["viol"].append({"what": "integrated-sensitivities", "which": "ode_and_sensitivity", "by_state": True,
+                                        "detail": {"shape": [ns, npar], "method": "scipy Radau with the by-state Jacobian",
+                                                   "maxerr": float(np.max(np.abs(got_s - want_s))) if got_s.shape == want_s.shape else None}})
+            except Exception as e:
+                out["viol"].append({"what": "integration-raised", "which": "ode_and_sensitivity", "by_state": True,
+                                    "detail": {"shape": [ns, npar], "method": "scipy Radau", "error": "%s: %s" % (type(e).__name__, e)}})
         # finite differences of reference solutions (Richardson) as an independent cross-check of the reference itself
         f0 = sp.lambdify(list(R.xs) + [R.t] + list(R.ps), list(R.f), modules="math")
 
@@ -189,11 +219,11 @@ def main(argv=None):
     run.sample({"model": jobs[5][0], "def": jobs[5][1]})
     run.cov.update({
         "evaluations": checks, "distinct_nontrivial": nt,
-        "rule": "models of every shape (d,p) in {1,2,3}x{0,1,2,3} (nonlinear, asymmetric) and seed models x 3 points x fixed "
+        "rule": "models of every shape (d,p) in {1,2,3}x{0,1,2,3} (nonlinear, asymmetric) and seed models x 5 evaluations (the first point three times with different parameter values, then two more points; one array handed to right-hand side, Jacobian and right-hand side again must come back untouched) x fixed "
                 "pseudo-random sensitivity values x arrangement {by parameter, by state} x {with parameters, initial-value system}: "
                 "ode_and_sensitivity / ode_and_sensitivityIV equal [f, vec(J*S+G), vec(J*S0)] in the documented layout, their _jacobian "
                 "counterparts equal the symbolic derivative of that augmented right-hand side (1e-9), and integrating them with "
-                "integrateFuncJac (methods None, dopri5, vode) reproduces the reference variational solution (1e-6), itself "
+                "integrateFuncJac (methods None, dopri5, vode) reproduces the reference variational solution (1e-6), as does scipy Radau driven with the by-state system and its Jacobian (1e-5); the reference is itself "
                 "cross-checked by central differences of reference solutions. non-trivial = augmented jacobian not symmetric",
         "exhaustive": True,
     })
